@@ -1,3 +1,17 @@
 package core
-import ("testing"; "pgregory.net/rapid"; "github.com/cenkalti/rain/v2/internal/bitfield")
-func TestProbe(t *testing.T){ rapid.Check(t, func(t *rapid.T){ n:=rapid.IntRange(1,100).Draw(t,"n"); b:=bitfield.New(uint32(n)); if b.Len()!=uint32(n){t.Fatal("x")}})}
+
+import (
+	"github.com/cenkalti/rain/v2/internal/bitfield"
+	"pgregory.net/rapid"
+	"testing"
+)
+
+func TestProbe(t *testing.T) {
+	rapid.Check(t, func(t *rapid.T) {
+		n := rapid.IntRange(1, 100).Draw(t, "n")
+		b := bitfield.New(uint32(n))
+		if b.Len() != uint32(n) {
+			t.Fatal("x")
+		}
+	})
+}
